@@ -79,3 +79,20 @@ Proof.
   rewrite (alter_parse a norm silent H), (alter_parse a' norm silent' H').
   rewrite <- (denote_c_alter norm a), <- (denote_c_alter norm a'), E. reflexivity.
 Qed.
+
+(* ---------- CREATE TYPE / CREATE DOMAIN with a value list ------------------------------------------------------------------------------------ *)
+From SDP Require TypeDom TypeDomProofs.
+Definition c_decl (d : TypeDom.decl) : TypeDom.decl :=
+  TypeDom.mkDecl (TypeDom.d_type d) "CREATE" (if TypeDom.d_type d then "TYPE" else "DOMAIN") (TypeDom.d_schema d) (TypeDom.d_name d) "AS"
+                 (TypeDom.d_base d) (TypeDom.d_first d) (TypeDom.d_rest d).
+Lemma denote_c_decl norm d : TypeDom.denote norm (c_decl d) = TypeDom.denote norm d.
+Proof. destruct d; reflexivity. Qed.
+(* the base type word is reported as written (ENUM in any letter case selects the enum reading), so it is not canonicalised here *)
+Theorem typedom_keyword_case : forall d d' norm silent silent',
+  TypeDom.wf norm d = true -> TypeDom.wf norm d' = true -> c_decl d = c_decl d' ->
+  parse_lexemes norm silent (TypeDom.lexemes d) = parse_lexemes norm silent' (TypeDom.lexemes d').
+Proof.
+  intros d d' norm silent silent' H H' E.
+  rewrite (TypeDomProofs.typedom_parse d norm silent H), (TypeDomProofs.typedom_parse d' norm silent' H').
+  rewrite <- (denote_c_decl norm d), <- (denote_c_decl norm d'), E. reflexivity.
+Qed.
